@@ -240,6 +240,9 @@ class Program:
         self.unrolled: list[str] = []
         self._reloc: dict[str, str] = {}
         self.relocated: dict[str, str] = {}
+        self.flattened: list[str] = []
+        self.inlined_helpers: list[str] = []
+        self.partial_closures: list[str] = []
         self.classes: dict[str, ClassInfo] = {}
         self.functions: dict[str, FuncInfo] = {}
         self._subclasses: dict[str, list[str]] = {}
@@ -306,11 +309,73 @@ class Program:
                 m.assigns.clear()
                 m.imports.clear()
                 self._index_module(m)
+        self._link_classes()
+        # structure normalisations: inherited-from-private-base methods, then newly extracted private helpers inlined back (needs a re-index: the ASTs change)
+        self.flattened = flatten_private_bases(self)
+        self.inlined_helpers = []
+        self.partial_closures = closures_from_partials(self)
+        if self.partial_closures:
+            self._reindex()
+            self.flattened = flatten_private_bases(self)
+        for _ in range(3):
+            got = inline_new_private_helpers(self)
+            if not got:
+                break
+            self.inlined_helpers += got
+            self._reindex()
+            self.flattened = flatten_private_bases(self)
+        self._drop_dead_helpers()
+
+    def _drop_dead_helpers(self) -> None:
+        """A newly extracted helper whose every call was read as its body is dead for the analysis: its left-over definition is not a second place where the
+        inlined statements 'also' happen (who-may-touch rules would otherwise see them twice)."""
+        inlined = {x.split(" <- ")[1] for x in self.inlined_helpers}
+        if not inlined:
+            return
+        refs: dict[str, int] = {}
+        for m in self.modules.values():
+            for n in ast.walk(m.tree):
+                if isinstance(n, ast.Attribute) and n.attr in inlined and isinstance(n.ctx, ast.Load):
+                    refs[n.attr] = refs.get(n.attr, 0) + 1
+                elif isinstance(n, ast.Name) and n.id in inlined and isinstance(n.ctx, ast.Load):
+                    refs[n.id] = refs.get(n.id, 0) + 1
+        dead = {h for h in inlined if refs.get(h, 0) == 0}
+        if not dead:
+            return
+        for q in [q for q, f in self.functions.items() if (f.name in dead and f.parent is None) or (f.parent is not None and self._top(f).name in dead)]:
+            del self.functions[q]
+        for c in self.classes.values():
+            for name in [n for n in c.methods if n in dead]:
+                del c.methods[name]
+        for m in self.modules.values():
+            for name in [n for n in m.functions if n in dead]:
+                del m.functions[name]
+        self.dropped_helpers = sorted(dead)
+
+    @staticmethod
+    def _top(f: "FuncInfo") -> "FuncInfo":
+        while f.parent is not None:
+            f = f.parent
+        return f
+
+    def _link_classes(self) -> None:
+        self._subclasses = {}
         for c in self.classes.values():
             c.bases = [self.resolve_name(c.module, b) or b for b in c.base_exprs]
         for c in self.classes.values():
             for b in c.bases:
                 self._subclasses.setdefault(b, []).append(c.qualname)
+
+    def _reindex(self) -> None:
+        self.classes.clear()
+        self.functions.clear()
+        for m in self.modules.values():
+            m.classes.clear()
+            m.functions.clear()
+            m.assigns.clear()
+            m.imports.clear()
+            self._index_module(m)
+        self._link_classes()
 
     def digest(self) -> str:
         h = hashlib.sha256()
@@ -1196,3 +1261,398 @@ def fold_optional_injection(prog: "Program") -> list[str]:
         fn.body = [T().visit(st) for st in fn.body]
         ast.fix_missing_locations(fn)
     return sorted(set(folded))
+
+
+# ----------------------------------------------------------------------------- structure normalisations: private bases, newly extracted helpers
+# private helper names of the pinned tree: the rules name these as anchors, so calls to them are never inlined away
+KNOWN_PRIVATE = {
+    "__consume_dead", "__consume_delayed", "__consume_normal", "__execute_callbacks", "__fetch_message_name", "__get_message", "__get_message_dead", "__get_message_delayed",
+    "__get_message_details", "__get_message_name", "__get_message_normal", "__mark_dead", "__mark_processing", "__put_in_queue", "__unmark_processing", "__update_delayed", "_ab",
+    "_actor_run", "_channel", "_construct_args", "_construct_parameters", "_construct_repid_router_from_markers", "_construct_routing_key", "_forget_topic", "_generate_output_model",
+    "_get_queue", "_inner", "_prepare_reschedule", "_prepare_retry", "_process_with_event", "_put_in_queue", "_rb", "_register_signals", "_repid_app_with_event_log_modifiers",
+    "_repid_app_with_modifiers", "_repid_app_with_worker_modifier", "_run", "_run_consumer", "_signal_emitter", "_task_callback", "_unregister_signals", "_update_from_config",
+    "_update_subdependencies",
+}
+
+
+def flatten_private_bases(prog: "Program") -> list[str]:
+    """Methods that a class inherits from a private base / mixin of the package (`class _Runner(_EventTasksMixin, _Processor)`, `class ArgsBucket(_ExpiringBucket)`) are also
+    indexed as methods of the class itself: 'extract base class' does not move an anchor out of the rules' sight. Anchor classes are never treated as mixins."""
+    done: list[str] = []
+    def is_mixin(b) -> bool:
+        return b.name not in ANCHOR_CLASSES and (b.name.startswith("_") or b.name.endswith("Mixin") or b.name.endswith("Base")) and not any("Protocol" in x for x in b.base_exprs)
+
+    def direct_mixins(c) -> list:
+        """mixins c reaches through its own bases and through other mixins only (what a concrete base class inherits is that class's business)"""
+        out, todo = [], list(c.bases)
+        while todo:
+            q = todo.pop(0)
+            b = prog.classes.get(q)
+            if b is None or not is_mixin(b) or b in out:
+                continue
+            out.append(b)
+            todo += list(b.bases)
+        return out
+
+    for c in list(prog.classes.values()):
+        if is_mixin(c):
+            continue
+        for b in direct_mixins(c):
+            for name, m in b.methods.items():
+                if name in c.methods:
+                    continue
+                q = f"{c.qualname}.{name}"
+                clone = FuncInfo(q, m.name, m.node, m.module, c, None, dict(m.nested))
+                c.methods[name] = clone
+                prog.functions[q] = clone
+                done.append(f"{c.name}.{name} <- {b.name}")
+            for an, av in b.attrs.items():
+                c.attrs.setdefault(an, av)
+    # the mixin's own entries are hidden from iteration once every method lives on (at least) one concrete class: the code must not be seen as a second, unowned copy
+    flattened_from = {x.split(" <- ")[1] for x in done}
+    for b in list(prog.classes.values()):
+        if b.name in flattened_from:
+            for name in list(b.methods):
+                q = f"{b.qualname}.{name}"
+                f0 = prog.functions.get(q)
+                if f0 is not None and any(f"{c.name}.{name} <- {b.name}" in done for c in prog.classes.values()):
+                    del prog.functions[q]
+                    for nq in [k for k in prog.functions if k.startswith(q + ".<locals>.")]:
+                        del prog.functions[nq]
+    return done
+
+
+def inline_new_private_helpers(prog: "Program") -> list[str]:
+    """'Extract method' undone: a call of a private helper that does NOT exist on the pinned tree (KNOWN_PRIVATE) is replaced by the helper's body when
+    the call is a whole statement of one of these shapes and the helper's returns allow it:
+        self._h(args)            / await self._h(args)            helper returns nothing (no value return, at most a final bare return)
+        x = self._h(args)        / x = await self._h(args)        the helper's only return is its last statement
+        return self._h(args)     / return await self._h(args)     any returns (tail position)
+    Parameters are bound to the arguments (simple arguments are substituted, others evaluated into fresh locals first); the helper's own locals get a suffix.
+    The helper's definition stays. Returns 'caller <- helper' pairs."""
+    import copy
+
+    done: list[str] = []
+
+    def callee_of(f: "FuncInfo", call: ast.Call):
+        fn = call.func
+        if isinstance(fn, ast.Attribute) and isinstance(fn.value, ast.Name) and f.cls is not None and fn.value.id in ("self", "cls", f.cls.name):
+            h = f.cls.methods.get(fn.attr) or prog.find_method(f.cls.qualname, fn.attr)
+            return h
+        if isinstance(fn, ast.Name):
+            q = prog.resolve_name(f.module, fn.id)
+            h = prog.functions.get(q) if q else None
+            return h if h is not None and h.cls is None and h.parent is None else None
+        return None
+
+    def eligible(h: "FuncInfo") -> bool:
+        if h is None or isinstance(h.node, ast.Lambda) or not h.name.startswith("_") or (h.name.startswith("__") and h.name.endswith("__")) or h.name in KNOWN_PRIVATE:
+            return False
+        a = h.node.args
+        if a.vararg or a.kwarg:
+            return False
+        if any(unparse(d) not in ("staticmethod", "classmethod") for d in h.node.decorator_list):
+            return False
+        if any(isinstance(x, (ast.Yield, ast.YieldFrom, ast.Global, ast.Nonlocal)) for x in ast.walk(h.node)):
+            return False
+        return True
+
+    def own_returns(node):
+        out = []
+        todo = list(node.body)
+        while todo:
+            st = todo.pop()
+            if isinstance(st, (ast.FunctionDef, ast.AsyncFunctionDef, ast.ClassDef, ast.Lambda)):
+                continue
+            if isinstance(st, ast.Return):
+                out.append(st)
+            for ch in ast.iter_child_nodes(st):
+                if isinstance(ch, (ast.stmt, ast.ExceptHandler)) or isinstance(ch, ast.match_case if hasattr(ast, "match_case") else ()):
+                    todo.append(ch)
+        return out
+
+    def bind(h: "FuncInfo", call: ast.Call, is_method_call: bool):
+        a = h.node.args
+        params = [x.arg for x in a.posonlyargs + a.args]
+        decos = [unparse(d) for d in h.node.decorator_list]
+        self_name = None
+        if h.cls is not None and "staticmethod" not in decos and params and is_method_call:
+            self_name, params = params[0], params[1:]
+        binding: dict[str, ast.expr] = {}
+        if len(call.args) > len(params) or any(isinstance(x, ast.Starred) for x in call.args) or any(k.arg is None for k in call.keywords):
+            return None
+        for p, v in zip(params, call.args):
+            binding[p] = v
+        kwnames = {x.arg for x in a.kwonlyargs} | set(params)
+        for k in call.keywords:
+            if k.arg not in kwnames or k.arg in binding:
+                return None
+            binding[k.arg] = k.value
+        defaults = dict(zip(params[len(params) - len(a.defaults):], a.defaults)) if a.defaults else {}
+        defaults.update({x.arg: d for x, d in zip(a.kwonlyargs, a.kw_defaults) if d is not None})
+        for p in list(params) + [x.arg for x in a.kwonlyargs]:
+            if p not in binding:
+                if p not in defaults:
+                    return None
+                binding[p] = defaults[p]
+        if self_name is not None:
+            binding[self_name] = call.func.value  # self / cls
+        return binding
+
+    def instantiate(h: "FuncInfo", binding, uid: int, result_name: str | None = None, result_local: str | None = None, taken: frozenset = frozenset()):
+        """(prelude statements, body statements) of h with parameters bound and locals renamed (the local that is returned takes the caller's target name)"""
+        prelude = []
+        subst: dict[str, ast.expr] = {}
+        stored_params = {n.id for n in ast.walk(h.node) if isinstance(n, ast.Name) and isinstance(n.ctx, (ast.Store, ast.Del))}
+        for p, v in binding.items():
+            simple = isinstance(v, (ast.Name, ast.Constant)) or (isinstance(v, ast.Attribute) and all(isinstance(x, (ast.Attribute, ast.Name, ast.Load)) for x in ast.walk(v)))
+            if simple and p not in stored_params:
+                subst[p] = v
+            else:
+                tmp = f"{p}__{h.name.strip('_')}{uid}"
+                prelude.append(ast.Assign(targets=[ast.Name(id=tmp, ctx=ast.Store())], value=copy.deepcopy(v)))
+                subst[p] = ast.Name(id=tmp, ctx=ast.Load())
+        params = set(binding)
+        locals_ = {n.id for n in ast.walk(h.node) if isinstance(n, ast.Name) and isinstance(n.ctx, (ast.Store, ast.Del)) and n.id not in params}
+        locals_ |= {x.name for x in ast.walk(h.node) if isinstance(x, (ast.FunctionDef, ast.AsyncFunctionDef)) and x is not h.node}
+        ren = {n: f"{n}__{h.name.strip('_')}{uid}" for n in locals_ if n in taken}  # only names the caller already uses are renamed
+        if result_name is not None and result_local in locals_:
+            ren[result_local] = result_name
+
+        class T(ast.NodeTransformer):
+            def visit_Name(self, node):
+                if node.id in subst and isinstance(node.ctx, ast.Load):
+                    return ast.copy_location(copy.deepcopy(subst[node.id]), node)
+                if node.id in subst and isinstance(subst[node.id], ast.Name):
+                    return ast.copy_location(ast.Name(id=subst[node.id].id, ctx=node.ctx), node)
+                if node.id in ren:
+                    return ast.copy_location(ast.Name(id=ren[node.id], ctx=node.ctx), node)
+                return node
+
+            def visit_FunctionDef(self, node):
+                if node.name in ren:
+                    node.name = ren[node.name]
+                self.generic_visit(node)
+                return node
+
+            visit_AsyncFunctionDef = visit_FunctionDef
+
+        body = [T().visit(copy.deepcopy(st)) for st in h.node.body]
+        body = [st for st in body if not (isinstance(st, ast.Expr) and isinstance(st.value, ast.Constant) and isinstance(st.value.value, str))]  # docstring
+        return prelude, body or [ast.Pass()]
+
+    uid = [0]
+
+    def try_inline(f: "FuncInfo", st: ast.stmt):
+        """list of replacement statements or None"""
+        val = None
+        kind = None
+        if isinstance(st, ast.Expr):
+            val, kind = st.value, "stmt"
+        elif isinstance(st, ast.Assign) and len(st.targets) == 1:
+            val, kind = st.value, "assign"
+        elif isinstance(st, ast.Return) and st.value is not None:
+            val, kind = st.value, "return"
+        if val is None:
+            return None
+        awaited = isinstance(val, ast.Await)
+        call = val.value if awaited else val
+        if not isinstance(call, ast.Call):
+            return None
+        h = callee_of(f, call)
+        if not eligible(h) or h.node is f.node or h.is_async != awaited:
+            return None
+        if h.is_async and not f.is_async:
+            return None
+        binding = bind(h, call, isinstance(call.func, ast.Attribute))
+        if binding is None:
+            return None
+        rets = own_returns(h.node)
+        last = h.node.body[-1] if h.node.body else None
+        if kind == "stmt":
+            if any(r.value is not None for r in rets) or any(r is not last for r in rets):
+                return None
+        elif kind == "assign":
+            if len(rets) != 1 or rets[0] is not last or rets[0].value is None:
+                return None
+        uid[0] += 1
+        res_name = res_local = None
+        if kind == "assign" and isinstance(st.targets[0], ast.Name) and isinstance(rets[0].value, ast.Name):
+            caller_names = {n.id for n in ast.walk(f.node) if isinstance(n, ast.Name)}
+            helper_uses = {n.id for n in ast.walk(h.node) if isinstance(n, ast.Name)}
+            if st.targets[0].id not in helper_uses or st.targets[0].id == rets[0].value.id:
+                res_name, res_local = st.targets[0].id, rets[0].value.id
+            del caller_names
+        taken = frozenset({n.id for n in ast.walk(f.node) if isinstance(n, ast.Name)} | {x.arg for x in ast.walk(f.node) if isinstance(x, ast.arg)})
+        prelude, body = instantiate(h, binding, uid[0], res_name, res_local, taken)
+        if kind == "stmt":
+            if body and isinstance(body[-1], ast.Return):
+                body = body[:-1] or [ast.Pass()]
+        elif kind == "assign":
+            r = body[-1]
+            if res_name is not None and isinstance(r.value, ast.Name) and r.value.id == res_name:
+                body = body[:-1] or [ast.Pass()]  # the returned local already carries the target's name
+            else:
+                body = body[:-1] + [ast.Assign(targets=st.targets, value=r.value)]
+        out = prelude + body
+        for x in out:
+            ast.copy_location(x, st)
+            ast.fix_missing_locations(x)
+        done.append(f"{f.short()} <- {h.name}")
+        return out
+
+    def rewrite_block(f: "FuncInfo", stmts: list) -> list:
+        out = []
+        for st in stmts:
+            if isinstance(st, ast.ClassDef):
+                out.append(st)
+                continue
+            if isinstance(st, (ast.FunctionDef, ast.AsyncFunctionDef)):
+                # a nested function of f: same `self`, its own sync/async-ness
+                nf = FuncInfo(f.qualname + ".<locals>." + st.name, st.name, st, f.module, f.cls, f)
+                st.body = rewrite_block(nf, st.body)
+                out.append(st)
+                continue
+            rep = try_inline(f, st)
+            if rep is not None:
+                out.extend(rep)
+                continue
+            for fld in ("body", "orelse", "finalbody"):
+                blk = getattr(st, fld, None)
+                if isinstance(blk, list) and blk and isinstance(blk[0], ast.stmt):
+                    setattr(st, fld, rewrite_block(f, blk))
+            for hnd in getattr(st, "handlers", []) or []:
+                hnd.body = rewrite_block(f, hnd.body)
+            out.append(st)
+        return out
+
+    for f in list(prog.functions.values()):
+        if isinstance(f.node, ast.Lambda) or f.parent is not None:
+            continue
+        if f.cls is not None and f.cls.methods.get(f.name) is not f and prog.functions.get(f.qualname) is not f:
+            continue
+        before = len(done)
+        f.node.body = rewrite_block(f, f.node.body)
+        if len(done) != before:
+            ast.fix_missing_locations(f.node)
+    return done
+
+
+def closures_from_partials(prog: "Program") -> list[str]:
+    """'Closure to method' undone: `partial(self._m, a, b)` / `partial(_f, k=v)` where `_m` / `_f` is a private callable that does not exist on the pinned tree is read
+    as a nested function defined right there, taking the remaining parameters and tail-calling the callable (which `inline_new_private_helpers` then replaces by its
+    body). Arguments that are not plain names / attributes / constants are evaluated once, where the partial was built, into fresh locals - as partial does."""
+    import copy
+
+    done: list[str] = []
+    uid = [0]
+
+    def target_of(f, e):
+        if isinstance(e, ast.Attribute) and isinstance(e.value, ast.Name) and e.value.id in ("self", "cls") and f.cls is not None:
+            return f.cls.methods.get(e.attr) or prog.find_method(f.cls.qualname, e.attr)
+        if isinstance(e, ast.Name):
+            q = prog.resolve_name(f.module, e.id)
+            h = prog.functions.get(q) if q else None
+            return h if h is not None and h.cls is None and h.parent is None else None
+        return None
+
+    for f in list(prog.functions.values()):
+        if isinstance(f.node, ast.Lambda) or f.parent is not None:
+            continue
+        changed = False
+
+        def process(stmts: list) -> list:
+            nonlocal changed
+            out = []
+            for st in stmts:
+                if isinstance(st, (ast.FunctionDef, ast.AsyncFunctionDef, ast.ClassDef)):
+                    out.append(st)
+                    continue
+                pre = []
+                for call in [c for c in ast.walk(st) if isinstance(c, ast.Call) and (dotted(c.func) or "").split(".")[-1] == "partial" and c.args]:
+                    # only partials directly in this statement (not inside nested defs)
+                    h = target_of(f, call.args[0])
+                    if h is None or isinstance(h.node, ast.Lambda) or not h.name.startswith("_") or (h.name.startswith("__") and h.name.endswith("__")) or h.name in KNOWN_PRIVATE:
+                        continue
+                    a = h.node.args
+                    if a.vararg or a.kwarg or any(isinstance(x, ast.Starred) for x in call.args) or any(k.arg is None for k in call.keywords):
+                        continue
+                    params = list(a.posonlyargs + a.args)
+                    is_method = isinstance(call.args[0], ast.Attribute) and h.cls is not None and "staticmethod" not in h.decorators
+                    if is_method:
+                        params = params[1:]
+                    bound_pos = call.args[1:]
+                    if len(bound_pos) > len(params):
+                        continue
+                    uid[0] += 1
+                    fixed: list[ast.expr] = []
+                    for v in bound_pos:
+                        if isinstance(v, (ast.Name, ast.Constant)) or (isinstance(v, ast.Attribute) and all(isinstance(x, (ast.Attribute, ast.Name, ast.Load)) for x in ast.walk(v))):
+                            fixed.append(copy.deepcopy(v))
+                        else:
+                            tmp = f"bound{len(fixed)}__{h.name.strip('_')}{uid[0]}"
+                            pre.append(ast.Assign(targets=[ast.Name(id=tmp, ctx=ast.Store())], value=copy.deepcopy(v)))
+                            fixed.append(ast.Name(id=tmp, ctx=ast.Load()))
+                    kw_fixed = {}
+                    for k in call.keywords:
+                        v = k.value
+                        if isinstance(v, (ast.Name, ast.Constant)) or (isinstance(v, ast.Attribute) and all(isinstance(x, (ast.Attribute, ast.Name, ast.Load)) for x in ast.walk(v))):
+                            kw_fixed[k.arg] = copy.deepcopy(v)
+                        else:
+                            tmp = f"bound_{k.arg}__{h.name.strip('_')}{uid[0]}"
+                            pre.append(ast.Assign(targets=[ast.Name(id=tmp, ctx=ast.Store())], value=copy.deepcopy(v)))
+                            kw_fixed[k.arg] = ast.Name(id=tmp, ctx=ast.Load())
+                    rest = [p_ for p_ in params[len(bound_pos):] if p_.arg not in kw_fixed]
+                    n_def = len(a.defaults)
+                    defaults_of = {p_.arg: d for p_, d in zip((a.posonlyargs + a.args)[len(a.posonlyargs + a.args) - n_def:], a.defaults)} if n_def else {}
+                    kwonly = [p_ for p_ in a.kwonlyargs if p_.arg not in kw_fixed]
+                    kw_defaults_of = {p_.arg: d for p_, d in zip(a.kwonlyargs, a.kw_defaults)}
+                    # remaining positional parameters: those with defaults must stay at the end
+                    new_args = ast.arguments(posonlyargs=[], args=[ast.arg(arg=p_.arg) for p_ in rest], vararg=None, kwonlyargs=[ast.arg(arg=p_.arg) for p_ in kwonly],
+                                             kw_defaults=[copy.deepcopy(kw_defaults_of.get(p_.arg)) for p_ in kwonly], kwarg=None,
+                                             defaults=[copy.deepcopy(defaults_of[p_.arg]) for p_ in rest if p_.arg in defaults_of])
+                    if any(p_.arg not in defaults_of for p_ in rest[len(rest) - len(new_args.defaults):]) and new_args.defaults:
+                        continue
+                    cname = f"{h.name.strip('_')}"
+                    inner_call = ast.Call(func=copy.deepcopy(call.args[0]), args=fixed + [ast.Name(id=p_.arg, ctx=ast.Load()) for p_ in rest],
+                                          keywords=[ast.keyword(arg=k, value=v) for k, v in kw_fixed.items()] + [ast.keyword(arg=p_.arg, value=ast.Name(id=p_.arg, ctx=ast.Load())) for p_ in kwonly])
+                    ret = ast.Return(value=ast.Await(value=inner_call) if h.is_async else inner_call)
+                    cls_ = ast.AsyncFunctionDef if h.is_async else ast.FunctionDef
+                    fd = cls_(name=cname, args=new_args, body=[ret], decorator_list=[], returns=None, type_comment=None)
+                    if hasattr(fd, "type_params"):
+                        fd.type_params = []
+                    pre.append(fd)
+                    # replace the partial(...) expression by the closure's name
+                    class R(ast.NodeTransformer):
+                        def visit_Call(self, node):
+                            if node is call:
+                                return ast.Name(id=cname, ctx=ast.Load())
+                            self.generic_visit(node)
+                            return node
+
+                        def visit_FunctionDef(self, node):
+                            return node
+
+                        visit_AsyncFunctionDef = visit_FunctionDef
+                        visit_Lambda = visit_FunctionDef
+
+                    R().visit(st)
+                    done.append(f"{f.short()}: partial({unparse(call.args[0])}, ...) -> closure {cname}")
+                    changed = True
+                for x in pre:
+                    ast.copy_location(x, st)
+                    ast.fix_missing_locations(x)
+                for fld in ("body", "orelse", "finalbody"):
+                    blk = getattr(st, fld, None)
+                    if isinstance(blk, list) and blk and isinstance(blk[0], ast.stmt):
+                        setattr(st, fld, process(blk))
+                for hnd in getattr(st, "handlers", []) or []:
+                    hnd.body = process(hnd.body)
+                out.extend(pre)
+                out.append(st)
+            return out
+
+        f.node.body = process(f.node.body)
+        if changed:
+            ast.fix_missing_locations(f.node)
+    return done
